@@ -18,7 +18,7 @@ func init() {
 			"and within 0.9*FailedUpdateTTL of a failed build no builder invocation for the key, errors served are the cached one; (b) sequential scripts of 6 Gets with the failing invocation at every position x FailedUpdateTTL {default,1h,-1} " +
 			"x entry state, judged against a small executable model (exact build count and result of every Get); (c) failure-cache entry expiry bracket [tb+0.95T, ta+1.05T] and rebuild after Errors.ExpireAll; " +
 			"distinct_nontrivial = distinct (config, schedule signature) of family-(a) runs with >=2 overlapping Gets on one key plus distinct family-(b) cells",
-		Required:    []string{"a.runs", "a.success_then_quiet.checked", "a.bursts.one_build", "a.suppression.checked", "b.sequences", "b.gets", "c.expiry.checked", "c.rebuild_after_elapse.checked", "api.Failover", "api.FailoverOf"},
+		Required:    []string{"a.runs", "a.success_then_quiet.checked", "a.bursts.one_build", "a.suppression.checked", "b.sequences", "b.reexpire_sequences", "b.gets", "c.expiry.checked", "c.rebuild_after_elapse.checked", "api.Failover", "api.FailoverOf"},
 		Assumptions: []string{"suppression window is judged only for events whose monotonic timestamps lie within 0.9*FailedUpdateTTL of the failure (sound under load)", "without SyncRead redundant sequential builds are documented behaviour and only counted"},
 		Timeout:     func(string) time.Duration { return 45 * time.Minute },
 	})
@@ -32,7 +32,11 @@ func runC05(b *Batch) {
 		}
 		rng := rand.New(rand.NewSource(b.CaseSeed(i)))
 		if i%4 == 3 {
-			c05Sequential(b, i, rng)
+			if i%8 == 7 {
+				c05Reexpire(b, i, rng)
+			} else {
+				c05Sequential(b, i, rng)
+			}
 			continue
 		}
 		c05Concurrent(b, i, rng)
@@ -52,7 +56,7 @@ func futOf(cfg foConfig) time.Duration {
 
 func c05Concurrent(b *Batch, idx int, rng *rand.Rand) {
 	steered := foSteeredShare(idx / 4)
-	o := foGenOpts{steered: steered, maxWorkers: 6, forceSR: rng.Intn(5) != 0, noSkip: true}
+	o := foGenOpts{steered: steered, maxWorkers: 6, forceSR: rng.Intn(5) < 3, noSkip: true}
 	if !steered {
 		o.maxWorkers = 12
 	}
@@ -372,5 +376,55 @@ func c05Sequential(b *Batch, idx int, rng *rand.Rand) {
 		if w.res == "new" {
 			lastNew = e.Val
 		}
+	}
+}
+
+// c05Reexpire: a stale value exists, its rebuild fails (failure cached), then the refreshed stale copy expires again (ExpireAll
+// stands for UpdateTTL elapsing) - several times. Within FailedUpdateTTL the builder must not be invoked again.
+func c05Reexpire(b *Batch, idx int, rng *rand.Rand) {
+	p := foPairings[rng.Intn(3)]
+	cfg := foConfig{API: p[0], BackendKind: p[1], SyncUpdate: rng.Intn(2) == 0, SyncRead: rng.Intn(2) == 0, FailHard: rng.Intn(2) == 0}
+	cfg.FailedUpdateTTL = []time.Duration{0, time.Hour, -1}[rng.Intn(3)]
+	if rng.Intn(2) == 0 {
+		cfg.MaxStaleness = time.Hour
+	}
+	sc := newSched(false, "random", rng)
+	sc.delayProb = 0
+	r := newFoRun(cfg, [][]byte{[]byte("re-key")}, sc)
+	defer r.release()
+	prepop := r.prepopulate(rng, 0, "stale")
+	r.script = func(int, int) buildOutcome { return buildOutcome{OK: false} }
+	nGets := 3 + rng.Intn(3)
+	quiesce := func() {
+		for dl := time.Now().Add(3 * time.Second); len(r.fo.LockedKeys()) > 0 && time.Now().Before(dl); {
+			time.Sleep(50 * time.Microsecond)
+		}
+	}
+	for g := 0; g < nGets; g++ {
+		r.doGet(0, getSpec{Key: 0})
+		quiesce()
+		r.be.ExpireAll(bg) // the refreshed copy expires again
+		advanceClock()
+	}
+	b.R.Eval()
+	b.R.Count("b.reexpire_sequences", 1)
+	b.R.Count("api."+cfg.API, 1)
+	cell := fmt.Sprintf("reexpire/%s/gets=%d", cfg, nGets)
+	b.R.Nontrivial(cell)
+	builds := 0
+	for _, e := range r.snapshotLog() {
+		if e.Kind == "build.enter" {
+			builds++
+		}
+		if e.Kind == "get.ret" && e.ErrKind == "" && e.Val != prepop {
+			b.R.Violate(b, idx, "C05:"+cfg.API+":reexpire:value", fmt.Sprintf("%s: Get returned %q, only the stale value %q or an error is possible", cell, e.Val, prepop), map[string]interface{}{"events": r.snapshotLog()})
+		}
+	}
+	want := 1
+	if futOf(cfg) < 0 {
+		want = nGets
+	}
+	if builds != want {
+		b.R.Violate(b, idx, "C05:"+cfg.API+":reexpire:builds", fmt.Sprintf("%s: builder invoked %d times, want %d (one failure, then served from the failure cache while the stale copy keeps expiring)", cell, builds, want), map[string]interface{}{"cell": cell, "events": r.snapshotLog()})
 	}
 }
